@@ -450,6 +450,7 @@ def obj_ops_alphabet():
         ("ksetitem", 13, 1), ("kprop", 14, "M"), ("kprop", 14, "f"), ("ksetitem", 14, 5), ("conv", 14, "trs"), ("setitem6", 12, 3),
         ("kprop", "K", "M"), ("kprop", "K", "f"), ("kslice", 13, (1, 3)), ("ksetitem", "K", 5),
         # min / max / mean of equal epochs held in different formats (the result carries the format of the receiver)
+        ("conv", 19, "trs"), ("conv", 20, "trs"), ("conv", 21, "llh"),
         ("tmax", 15, "max"), ("tmax", 16, "max"), ("tmax", 15, "min"), ("tmax", 16, "min"), ("tmax", 17, "mean"), ("tmax", 18, "mean"),
     ]
 
@@ -489,6 +490,11 @@ def build_objects(mods):
     objs.append(Time(np.array(tdt.jd1), val2=np.array(tdt.jd2), fmt="jd", scale="utc"))  # 16
     objs.append(Time(np.array(tdt.jd1)[:1], val2=np.array(tdt.jd2)[:1], fmt="jd", scale="utc"))  # 17 one epoch (mean returns self)
     objs.append(Time(tdt.datetime[:1], fmt="datetime", scale="utc"))  # 18 the same epoch in datetime format
+    # equal geodetic coordinates on two ellipsoids of the same name and different figures, and on an equal-valued third object
+    e = same_name_ellipsoids(ell)
+    objs.append(P(palette_llh(2, (4, 3)), system="llh", ellipsoid=e[0]))    # 19
+    objs.append(P(palette_llh(2, (4, 3)), system="llh", ellipsoid=e[1]))    # 20
+    objs.append(P(palette_xyz(1, (4, 3)), system="trs", ellipsoid=e[1]))    # 21 the values of object 0 on the other figure
     return objs
 
 
@@ -1209,6 +1215,8 @@ def run(ctx: Ctx):
     ctx.extra["E_routes"] = c08_hist.run_routes(ctx, mods)
     # ---------------- part G: results of time objects are protected or private
     ctx.extra["G_time_results"] = c08_hist.run_time_results(ctx, mods)
+    # ---------------- part H: time arrays made from time arrays after earlier indexing / reads
+    ctx.extra["H_time_derivations"] = c08_hist.run_time_derivations(ctx, mods, ctx.thorough)
     # ---------------- part F: cached functions and objects on one memory (the constructor keeps the caller's array)
     jobsF = [ctx.rng.randrange(2 ** 31) for _ in range(ctx.budget(8, 64))]
 
